@@ -23,10 +23,13 @@ open Saito.Consensus
 /-- Pool well-formedness: what `Block::create` drains holds no Issuance / ATR / GoldenTicket / BlockStake typed
     transaction (the producer adds its own single staking transaction), and — once the per-transaction verdict
     gates validity — every pooled transaction passes `Transaction::validate` on the current ledger (C14's pool
-    invariant). Fee-, SPV-, Bound-typed and ordinary transactions are all allowed. -/
+    invariant). SPV-, Bound-typed and ordinary transactions are always allowed; Fee-typed ones are allowed on a
+    tree without the fee-count rule (there only the last fee transaction is compared) and must be absent once
+    `Block::validate` fixes the number of fee transactions (repair F7, flag `feeTxCount`). -/
 structure PoolWF (fl : Flags) (pool : List Tx) : Prop where
   noPriv : ∀ t ∈ pool, t.typ ≠ .issuance ∧ t.typ ≠ .atr ∧ t.typ ≠ .goldenTicket ∧ t.typ ≠ .blockStake
   valid : fl.txVerdict = true → ∀ t ∈ pool, t.valid = true
+  noFee : fl.feeTxCount = true → ∀ t ∈ pool, t.typ ≠ .fee
 
 /-- The ticket handed to the producer is a golden-ticket transaction whose solution is valid for the tip. -/
 def TicketWF (fl : Flags) (ctx : Ctx) (gt : Option Tx) : Prop :=
@@ -120,6 +123,7 @@ theorem validate_create (fl : Flags) (ctx : Ctx) (pool : List Tx) (gt : Option T
     (hs : Shape pool gt)
     (hv : fl.txVerdict = true → ∀ t ∈ gt.toList ++ pool, t.valid = true)
     (hst : ctx.stake ≠ 0 → stakeCount pool = 1)
+    (hnf : fl.feeTxCount = true → ∀ t ∈ pool, t.typ ≠ .fee)
     (hgt : ∀ t, gt = some t → ctx.gtOk t.ticket = true)
     (hne : gt.toList ++ pool ≠ [])
     (hwork : ∀ p, ctx.prev = some p → ctx.workF p.bf ts p.ts ctx.hb ≤ (pool.map (·.work)).sum)
@@ -137,7 +141,8 @@ theorem validate_create (fl : Flags) (ctx : Ctx) (pool : List Tx) (gt : Option T
   have hhdr := header_ok fl ctx pool gt ts
   have hrs := rs_ok fl ctx pool gt ts hs
   have hrh := rebHash_ok fl ctx pool gt ts hs hF
-  have hfee := fee_ok fl ctx pool gt ts
+  have hfee : feeCheck fl ctx (mkBlock fl ctx pool gt ts) (frameCV (mkBlock fl ctx pool gt ts)) = true := by
+    unfold feeCheck; rw [feeCount_ok fl ctx pool gt ts hs hnf, feeCompare_ok fl ctx pool gt ts]; rfl
   have hprev := prev_ok fl ctx pool gt ts hs hgt hwork
   have hsw := sweep_ok fl ctx pool gt ts hk hv hd
   have hc := frameCV_core (mkBlock fl ctx pool gt ts)
@@ -211,6 +216,12 @@ theorem validate_bundle (fl : Flags) (ctx : Ctx) (loc : Local) (pool : List Tx) 
         have h0 : pool.filter (fun t => t.typ == .blockStake) = [] := by
           rw [List.filter_eq_nil_iff]; intro t ht; have := (hp.noPriv t ht).2.2.2; simpa using this
         simp [h0, hsw.1]
+      · -- no fee-typed transaction once the fee-count rule applies
+        intro hx t ht
+        rw [List.mem_append, List.mem_singleton] at ht
+        rcases ht with ht | ht
+        · exact hp.noFee hx t ht
+        · subst ht; rw [hsw.1]; decide
       · intro t ht; exact (hg t ht).2.1
       · intro h
         have : pool ++ [s] = [] := by
@@ -244,7 +255,7 @@ theorem C07_full_other_node (fl : Flags) (ctx ctx' : Ctx) (loc : Local) (pool : 
   rw [← hsame.eq]
   exact C07_full fl ctx loc pool gt ts b hcap hhash hk hp hg hl hb
 
-/-- all five repairs at once (`Flags.fixed`) -/
+/-- all six repairs at once (`Flags.fixed`) -/
 theorem C07_fixed (ctx : Ctx) (loc : Local) (pool : List Tx) (gt : Option Tx) (ts : Nat) (b : Block)
     (hp : PoolWF Flags.fixed pool) (hg : TicketWF Flags.fixed ctx gt) (hl : LocalWF loc pool)
     (hb : bundle Flags.fixed ctx loc pool gt ts = some b) :
@@ -380,6 +391,21 @@ theorem privileged_pool_witness :
   refine ⟨⟨(bundle Flags.pinned wCtx0 wLoc ({ typ := .issuance, size := 152 } :: wPool) wGt 500).get (by decide +kernel), by simp, ?_⟩,
           ⟨(bundle Flags.pinned wCtx0 wLoc ({ typ := .atr, size := 152, atrSlips := 1 } :: wPool) wGt 500).get (by decide +kernel), by simp, ?_⟩⟩ <;> decide +kernel
 
+/-- the fee-count rule (flag `feeTxCount`, repair F7) in action: a Fee-typed transaction in the pool next to a
+    ticket gives a block with two fee transactions. Pinned: only the last one is compared, the block VALIDATES (its
+    forged outputs are wound; the real node then panics in `check_total_supply`). With the rule the block is refused —
+    the same input moves from "accepted, node crashes" to "rejected by its own producer"; both need `poolRejectsPriv`. -/
+theorem surplus_fee_witness :
+    (∃ b, bundle Flags.pinned wCtx0 wLoc ({ typ := .fee, size := 152, body := [0, 5, 700, 5] } :: wPool) wGt 500 = some b ∧
+      (gcv Flags.pinned wCtx0 b.view).ftNum = 2 ∧ validate Flags.pinned wCtx0 b = true) ∧
+    (∃ b, bundle { Flags.pinned with feeTxCount := true } wCtx0 wLoc ({ typ := .fee, size := 152, body := [0, 5, 700, 5] } :: wPool) wGt 500 = some b ∧
+      validate { Flags.pinned with feeTxCount := true } wCtx0 b = false) ∧
+    (∃ b, bundle { Flags.pinned with feeTxCount := true } wCtx0 wLoc ({ typ := .fee, size := 152, body := [0, 5, 700, 5] } :: wPool) none 500 = some b ∧
+      validate { Flags.pinned with feeTxCount := true } wCtx0 b = false) := by
+  refine ⟨⟨(bundle Flags.pinned wCtx0 wLoc ({ typ := .fee, size := 152, body := [0, 5, 700, 5] } :: wPool) wGt 500).get (by decide +kernel), by simp, ?_, ?_⟩,
+          ⟨(bundle { Flags.pinned with feeTxCount := true } wCtx0 wLoc ({ typ := .fee, size := 152, body := [0, 5, 700, 5] } :: wPool) wGt 500).get (by decide +kernel), by simp, ?_⟩,
+          ⟨(bundle { Flags.pinned with feeTxCount := true } wCtx0 wLoc ({ typ := .fee, size := 152, body := [0, 5, 700, 5] } :: wPool) none 500).get (by decide +kernel), by simp, ?_⟩⟩ <;> decide +kernel
+
 /-- DEFECT 4 (local state, mempool.rs:240-252): the routing-work counter claims 500 although the pool carries 0
     (`Block::create` failed earlier and the pool was drained without resetting the counter): the gate passes,
     the block lacks routing work and is refused. `LocalWF.work` is exactly the hypothesis this violates. -/
@@ -392,8 +418,8 @@ theorem stale_work_witness :
 
 /-! ## non-vacuity of the hypotheses -/
 
-example : PoolWF Flags.fixed wPool := ⟨by decide, fun _ => by decide⟩
-example : PoolWF Flags.pinned wPool := ⟨by decide, fun h => by cases h⟩
+example : PoolWF Flags.fixed wPool := ⟨by decide, fun _ => by decide, fun _ => by decide⟩
+example : PoolWF Flags.pinned wPool := ⟨by decide, fun h => (by cases h), fun h => (by cases h)⟩
 example : TicketWF Flags.fixed wCtx wGt := by
   intro t ht; cases ht; exact ⟨rfl, rfl, fun _ => rfl⟩
 example : LocalWF wLoc wPool := ⟨by intro s hs; cases hs; exact ⟨rfl, rfl⟩, by decide⟩
